@@ -193,7 +193,11 @@ def check_loc(c):
 
 
 def short_check(c):
-    return {"description": c.get("description"), "category": c.get("category"),
+    d = c.get("description") or ""
+    if d.startswith("This is a placeholder message"):
+        # Kani cannot render panic messages that are formatted at run time
+        d = "panic / assert! / debug_assert! with a formatted message in %s (%s)" % (c.get("function"), check_loc(c))
+    return {"description": d, "category": c.get("category"),
             "function": c.get("function"), "location": check_loc(c)}
 
 
